@@ -5,7 +5,9 @@ Inductive gout := GOk (k : bytes) (channel : bytes) | GErr (e : gerr) | GPanic.
 
 Inductive case :=
 | CGen (parent : res kerr key) (parent_str : bytes) (ct : contract) (now : Z)
-       (channel ty : bytes) (ttl expires : Z) (conn_id : bytes) (out : gout).
+       (channel ty : bytes) (ttl expires : Z) (conn_id : bytes) (out : gout)
+(* the parent key string presented to Authorize after the request: still the key it was *)
+| CProbe (parent : res kerr key) (parent_str : bytes) (ct : contract) (now : Z) (text : bytes) (perm : N) (ok : bool).
 
 Definition near (a b : N) : bool := (a <=? b + 3) && (b <=? a + 3).
 
@@ -74,4 +76,11 @@ Definition check (c : case) : N :=
     bit corr 1 |+| bit oracle 2
     (* F19: a ttl that puts the expiry before 2010 (in particular any large negative ttl) wraps *)
     |+| (if expiry_ok then 0 else if corr && (expires <=? timeOffset)%Z then 16 else 2)
+  | CProbe parent pstr ct now text perm ok =>
+    let decrypt := fun s => if bytes_eqb s pstr then parent else Err KCorrupt in
+    let contracts := fun id => if id =? ct_id ct then Some ct else None in
+    let m := authorize murmur (fun _ => false) decrypt contracts now (parse_channel text) perm in
+    let mok := match m with Some _ => true | None => false end in
+    (* model and oracle coincide here: the parent's grants are those of the key as issued *)
+    bit (Bool.eqb mok ok) 1 |+| bit (Bool.eqb mok ok) 2
   end.
